@@ -55,7 +55,7 @@ LEVEL_TEXT = ("Proved in Lean on the model (Model.Iter + Model.ParseNumber, all 
               "(3) strip_preserves (R1): Props/C13Gen.lean strip_preserves_all - for EVERY flag combination on every component (no flag, I, L, T, "
               "I+L, I+T, L+T, I+L+T, each with or without C) except I+T+C on the integer or fraction component (no base prefix/suffix, STANDARD "
               "required digits): an input the complete parser accepts as a number is accepted as the same number (same mantissa/exponent words, "
-              "same numberBits value) after deleting all separators; the I+T+C exclusion is necessary (strip_witness_itc, recorded defect); "
+              "same numberBits value) after deleting all separators; the I+T+C exclusion was necessary for the predicate before /repo 5dae23b (strip_witness_itc is about that predicate); with the repaired is_itc! / is_ilc! (model switches Fix.itc / Fix.ilc = true, the current code) strip_preserves_all_fixed and insert_preserves_doc_fixed hold for EVERY flag combination, position_fixed_itc / position_fixed_ilc are the regressions; "
               "proof: predicate-agnostic traces of the digit loops + a locality lemma (the skip predicates look at a small neighbourhood; what the "
               "many-digit re-scan of a stored slice sees at the slice boundary never turns a skip into a non-skip, except for is_itc); "
               "strip_preserves (Props/C13.lean) is the all-I+L+T+C instance; (4) insert_preserves (R3): insert_preserves_doc - same classes - "
